@@ -451,23 +451,74 @@ class OverloadTranslator:
             raise Untranslatable(self.file, m.lineno, "signature of %s" % name)
         body = [s for s in m.body if not (isinstance(s, ast.Expr) and isinstance(s.value, ast.Constant))]
         stmts = []
+        coerced = set()
         for s in body:
             if isinstance(s, ast.ImportFrom):
                 continue
-            # `x = x if isinstance(x, Tensor) else Tensor(x, device=self.device)` : coercion of a number to a constant tensor
+            # coercion of a number to a constant tensor, either form:
+            #   x = x if isinstance(x, Tensor) else Tensor(x, device=self.device)
+            #   x = x if isinstance(x, Tensor) else self._wrap_scalar(x)
             if isinstance(s, ast.Assign) and len(s.targets) == 1 and isinstance(s.targets[0], ast.Name) and isinstance(s.value, ast.IfExp) \
                     and isinstance(s.value.body, ast.Name) and s.value.body.id == s.targets[0].id and s.targets[0].id in params \
-                    and isinstance(s.value.orelse, ast.Call) and isinstance(s.value.orelse.func, ast.Name) and s.value.orelse.func.id == 'Tensor' \
+                    and isinstance(s.value.test, ast.Call) and isinstance(s.value.test.func, ast.Name) and s.value.test.func.id == 'isinstance' \
+                    and isinstance(s.value.orelse, ast.Call) and len(s.value.orelse.args) == 1 \
                     and isinstance(s.value.orelse.args[0], ast.Name) and s.value.orelse.args[0].id == s.targets[0].id:
-                continue
+                f = s.value.orelse.func
+                if isinstance(f, ast.Name) and f.id == 'Tensor':
+                    continue
+                if isinstance(f, ast.Attribute) and isinstance(f.value, ast.Name) and f.value.id == 'self' and f.attr == '_wrap_scalar' \
+                        and not s.value.orelse.keywords:
+                    self.wrap_scalar(done)
+                    coerced.add(s.targets[0].id)
+                    continue
             stmts.append(s)
         if len(stmts) != 1 or not isinstance(stmts[0], ast.Return):
             raise Untranslatable(self.file, m.lineno, "body of %s" % name)
+        self.coerced = coerced
         term = self.term(stmts[0].value, params, name, done, stack + [name])
+        self.coerced = set()
         done[name] = (name, params, term, (m.lineno, m.end_lineno))
 
     def ov(self, name):
         return "ov_" + name.strip('_')
+
+    def wrap_scalar(self, done):
+        """Tensor._wrap_scalar(self, value): every path must return Tensor(value, ...) or Tensor(np.asarray(value, dtype=...), ...):
+        over R the identity embedding of the scalar (which dtype the constant gets is a rounding matter, C10)."""
+        if '_wrap_scalar' in done:
+            return
+        cls = [c for c in self.tree.body if isinstance(c, ast.ClassDef) and c.name == 'Tensor'][0]
+        ms = [m for m in cls.body if isinstance(m, ast.FunctionDef) and m.name == '_wrap_scalar']
+        if len(ms) != 1:
+            raise Untranslatable(self.file, "?", "Tensor._wrap_scalar")
+        m = ms[0]
+        params = [a.arg for a in m.args.args]
+        if len(params) != 2 or params[0] != 'self':
+            raise Untranslatable(self.file, m.lineno, "signature of _wrap_scalar")
+        v = params[1]
+
+        def value_expr(e):
+            if isinstance(e, ast.Name) and e.id == v:
+                return True
+            return isinstance(e, ast.Call) and isinstance(e.func, ast.Attribute) and isinstance(e.func.value, ast.Name) and e.func.value.id == 'np' \
+                and e.func.attr in ('asarray', 'array') and len(e.args) == 1 and isinstance(e.args[0], ast.Name) and e.args[0].id == v \
+                and all(k.arg == 'dtype' for k in e.keywords)
+
+        def block(stmts):
+            n = 0
+            for st in stmts:
+                if isinstance(st, ast.Expr) and isinstance(st.value, ast.Constant):
+                    continue
+                if isinstance(st, ast.If):
+                    n += block(st.body) + block(st.orelse); continue
+                if isinstance(st, ast.Return) and isinstance(st.value, ast.Call) and isinstance(st.value.func, ast.Name) and st.value.func.id == 'Tensor' \
+                        and len(st.value.args) == 1 and value_expr(st.value.args[0]) and all(k.arg in ('device', 'dtype') for k in st.value.keywords):
+                    n += 1; continue
+                raise Untranslatable(self.file, st.lineno, "statement of _wrap_scalar: %s" % ast.unparse(st)[:60])
+            return n
+        if block(m.body) == 0 or not isinstance(m.body[-1], ast.Return):
+            raise Untranslatable(self.file, m.lineno, "_wrap_scalar without a final return")
+        done['_wrap_scalar'] = ('_wrap_scalar', [v], ('v', v), (m.lineno, m.end_lineno))
 
     def coq(self, t):
         if t[0] == 'v':
@@ -494,6 +545,8 @@ class OverloadTranslator:
         U = lambda what: Untranslatable(self.file, getattr(n, "lineno", "?"), what)
         rec = lambda x: self.term(x, params, inside, done, stack)
         if isinstance(n, ast.Name) and n.id in params:
+            if n.id in getattr(self, "coerced", ()):
+                return ('ov', '_wrap_scalar', [('v', n.id)])
             return ('v', n.id)
         if isinstance(n, ast.Constant):
             return ('n', literal(n, self.src, self.file))
